@@ -1131,17 +1131,31 @@ func (pe *PEngine) liftWithPrecondition(p *pci, goals []*lin) (bool, string) {
 			slices = append(slices, i)
 		}
 	}
+	// ... or with a count taken from an integer parameter (b[k] for k below n): len(pa) >= pb
+	var ints []int
+	for i, prm := range p.fn.Params {
+		if isIntType(prm.Type()) {
+			ints = append(ints, i)
+		}
+	}
 	node := pe.P.CG().Nodes[p.fn]
-	if node == nil || len(slices) < 2 {
+	if node == nil || len(slices) == 0 || len(slices)+len(ints) < 2 {
 		return false, ""
 	}
+	isInt := map[int]bool{}
+	for _, i := range ints {
+		isInt[i] = true
+	}
 	for _, a := range slices {
-		for _, b := range slices {
+		for _, b := range append(append([]int{}, slices...), ints...) {
 			if a == b {
 				continue
 			}
 			la := pf.linOf(pf.mkLen(pf.get(p.fn.Params[a])))
 			lb := pf.linOf(pf.mkLen(pf.get(p.fn.Params[b])))
+			if isInt[b] {
+				lb = pf.linOf(pf.get(p.fn.Params[b]))
+			}
 			pre := la.sub(lb)
 			okAll := true
 			for _, g := range goals {
@@ -1164,7 +1178,11 @@ func (pe *PEngine) liftWithPrecondition(p *pci, goals []*lin) (bool, string) {
 				n++
 				cpf := pe.pf(caller)
 				args := e.Site.Common().Args
-				cg := cpf.linOf(cpf.mkLen(cpf.get(args[a]))).sub(cpf.linOf(cpf.mkLen(cpf.get(args[b]))))
+				cb := cpf.linOf(cpf.mkLen(cpf.get(args[b])))
+				if isInt[b] {
+					cb = cpf.linOf(cpf.get(args[b]))
+				}
+				cg := cpf.linOf(cpf.mkLen(cpf.get(args[a]))).sub(cb)
 				if !cpf.proveAt(e.Site.Block(), pgoal{l: cg}, nil, 0) {
 					open = append(open, e.Site)
 				}
@@ -1173,6 +1191,9 @@ func (pe *PEngine) liftWithPrecondition(p *pci, goals []*lin) (bool, string) {
 				return false, ""
 			}
 			desc := fmt.Sprintf("len(%s) >= len(%s)", p.fn.Params[a].Name(), p.fn.Params[b].Name())
+			if isInt[b] {
+				desc = fmt.Sprintf("len(%s) >= %s", p.fn.Params[a].Name(), p.fn.Params[b].Name())
+			}
 			if len(open) == 0 {
 				return true, fmt.Sprintf("safe under the precondition %s, which holds at all %d call sites in the module", desc, n)
 			}
